@@ -14,7 +14,9 @@ RULE = ("Hypothesis-generated small multi-threaded programs (2-3 threads x 1-2 o
         "public mutator incl. clear/reset/pop/popitem/reverse/remove/+=/update/setdefault, on the 12 "
         "thread-capable JSON classes (buffered classes used unbuffered); targets = one shared root "
         "object, a second object on the same file, nested-child handles taken before the threads "
-        "start (only at positions no operation of the program reassigns). Each program is executed "
+        "start (only at positions no operation of the program reassigns); a quarter of the programs come "
+        "from a steered family: a root clear()/reset() (which save without loading) next to ordinary "
+        "mutators on the same, never-loaded object or on a second object. Each program is executed "
         "under the harness-owned deterministic scheduler: for every start thread the unpreempted run "
         "plus ALL single-preemption schedules (every executed line of library code that can touch collection state and every lock "
         "operation is a preemption point; complete when <=1600 schedules, otherwise every distinct "
@@ -91,8 +93,36 @@ def dec_path(h):
     return dec(h["path"]) if "of" in h else []
 
 
-def draw_program(draw, ci, max_threads=3, max_ops=2):
+def draw_clear_family(draw, ci):
+    """Steered family: a root clear()/reset() (which skip the load) next to an ordinary mutator on
+    the SAME object, a nested child of it, or a second object of the file; the objects have not
+    loaded yet, so anything that makes the mutator skip its own load loses the file's content."""
     kind = ci.kind
+    inner = {"l": [1, 2, "s"], "d": {"a": 2}}
+    doc = {"H": inner, "a": 1, "b": [1]} if kind == "dict" else [inner, 1, 2, "s"]
+    handles = [{"file": 0}, {"file": 0}]
+    kinds = [kind, kind]
+    m = draw(st.sampled_from(["clear", "reset"]))
+    a = [] if m == "clear" else enc([{"r": 1}] if kind == "dict" else [[1]])
+    t0 = [{"h": 0, "m": m, "a": a}]
+    other = draw(st.sampled_from([0, 0, 1]))
+    op = dict_op(draw, restricted=True) if kind == "dict" else list_op(draw, len(doc), restricted=True)
+    t1 = [dict(op, h=other)]
+    if draw(st.booleans()):
+        op2 = dict_op(draw, restricted=True) if kind == "dict" else list_op(draw, len(doc), restricted=True)
+        t1.append(dict(op2, h=draw(st.sampled_from([0, 1]))))
+    threads = [t0, t1]
+    if draw(st.integers(0, 2)) == 0:
+        op3 = dict_op(draw, restricted=True) if kind == "dict" else list_op(draw, len(doc), restricted=True)
+        threads.append([dict(op3, h=1)])
+    return {"property": ID, "class": ci.name, "docs": [enc(doc)], "root_kinds": [kind],
+            "handles": handles, "kinds": kinds, "threads": threads, "family": "root_clear_next_to_mutator"}
+
+
+def draw_program(draw, ci, max_threads=3, max_ops=2, families=True):
+    kind = ci.kind
+    if families and draw(st.sampled_from([0, 1, 2, 3])) == 1:
+        return draw_clear_family(draw, ci)
     nested = draw(st.booleans())
     inner = {"l": [1, 2, "s"], "d": {"a": 2}}
     if kind == "dict":
@@ -213,6 +243,8 @@ def run_shard(spec, seed, tier, active):
         before = acc.evaluations
         fail = explore_program(program, acc, active, extra)
         acc.counters["programs"] += 1
+        if program.get("family"):
+            acc.counters["family." + program["family"]] += 1
         if len(acc.samples) < 3:
             acc.samples.append({"program": {k: program[k] for k in ("class", "handles", "threads")},
                                 "schedules_executed": acc.evaluations - before})
